@@ -77,6 +77,11 @@ impl Write for Sink {
             let room = p - self.data.len().min(p);
             if room == 0 && !(kind == FailKind::HardOnce && self.failures_injected > 0) {
                 self.failures_injected += 1;
+                // a caller that keeps offering bytes to a sink that reports no progress would never return; the
+                // verdict is taken after a fixed number of calls, not after a time-out
+                if self.failures_injected > 20_000 {
+                    panic!("the writer kept calling the sink after it had answered {} times with a failure at byte {}: the save would never return", self.failures_injected - 1, p);
+                }
                 return match kind {
                     FailKind::Hard | FailKind::HardOnce => Err(io::Error::new(io::ErrorKind::Other, "injected sink failure")),
                     FailKind::Zero => Ok(0),
@@ -289,6 +294,7 @@ fn check_case(seed: u64, shard: u64, index: u64, out: &mut ShardOut) {
             out.add("faults_injected", w.failures_injected);
             let mut bad: Option<(&str, String)> = None;
             match res {
+                Err(pm) if pm.contains("the save would never return") => bad = Some(("fault-never-returns", format!("sink failing at byte {} ({:?}): {}", p, fk, pm))),
                 Err(pm) => bad = Some(("fault-panic", format!("save panicked when the sink failed at byte {} ({:?}): {}", p, fk, pm))),
                 Ok(Ok(())) => bad = Some(("fault-ok", format!("save returned Ok although the sink failed at byte {} ({:?}) of {}", p, fk, golden.len()))),
                 Ok(Err(_)) => {
@@ -345,7 +351,7 @@ pub fn run(cfg: &RunCfg) -> (PropMeta, ShardOut, Map<String, Value>) {
     });
     let meta = PropMeta {
         level: "fault_enumeration",
-        rule: "per generated document (plain save and incremental save after random edits, xref table and xref stream): golden bytes from a healthy sink; 5 chunking/Interrupted policies must reproduce the golden bytes; the path-based save must write the golden bytes to a healthy file and return an error on /dev/full; then EVERY byte position p of the golden output x {persistent hard error, Ok(0), single failing call} is injected: save must return Err, delivered bytes must equal golden[..p], and re-saving the same value to a healthy sink must load to the model content. distinct = distinct golden files + distinct (save kind, write-call length) sites observed.".into(),
+        rule: "per generated document (plain save and incremental save after random edits, xref table and xref stream): golden bytes from a healthy sink; 5 chunking/Interrupted policies must reproduce the golden bytes; the path-based save must write the golden bytes to a healthy file and return an error on /dev/full; then EVERY byte position p of the golden output x {persistent hard error, Ok(0), single failing call} is injected: save must return (a writer that calls a failing sink 20,000 times over is taken not to) with Err, delivered bytes must equal golden[..p], and re-saving the same value to a healthy sink must load to the model content. distinct = distinct golden files + distinct (save kind, write-call length) sites observed.".into(),
         assumptions: vec![
             "the sink reports errors truthfully (an error means none of the offered bytes of that call were accepted)".into(),
             "content after re-save is checked through lopdf's own loader against the model (C03's strict reader covers structural validity separately); for files > 1500 bytes the content check runs on every 7th position and the last 64".into(),
